@@ -403,7 +403,8 @@ def c03(sc, V):
             if wn is None:
                 continue
             wn_real = next((w["name"] for w in s.before.watchers if w["name"].replace(" ", "_") == wn), wn)
-            if sg != 9 and via == "" and st == "r" and pid not in stop_sent:
+            is_kill = any(m[0] == "ev" and m[2] == "kill" and m[3] == pid for m in s.lines[i + 1:i + 3])
+            if sg != 9 and via == "" and st == "r" and pid not in stop_sent and is_kill:
                 T = _graceful_at(sc, V, s.n, wn_real)
                 if s.cmd() == "kill":
                     gt = s.props().get("graceful_timeout")
@@ -572,7 +573,7 @@ def c09(sc, V):
             if l[0] == "ev" and l[2] == "reap":
                 if l[3] in reap_ev:
                     f.append({"sig": "two-reap-events", "step": s.n, "msg": "pid %d reaped twice" % l[3]})
-                if l[3] not in spawn_ev:
+                if l[3] not in spawn_ev and not _after_spawn_failed(V, s.n, l[3]):
                     f.append({"sig": "reap-without-spawn", "step": s.n, "msg": "pid %d" % l[3]})
                 reap_ev[l[3]] = l[4]
                 if l[3] in pending_exit and l[4] not in ("None",):
@@ -587,7 +588,7 @@ def c09(sc, V):
         a = s.snap
         for w in a.watchers:
             for p in w["procs"]:
-                if p[0] not in spawn_ev and p[0] in owner:
+                if p[0] not in spawn_ev and p[0] in owner and not _after_spawn_failed(V, s.n, p[0]):
                     # adopted worker without a spawn event (only legal inside the spawn step before the hook verdict)
                     f.append({"sig": "listed-without-spawn-event", "step": s.n, "msg": "pid %d" % p[0]})
         if a.quiescent() and s.kind() == "check" and not a.stopping and not any(l[0] == "conflict" for l in s.lines):
@@ -808,7 +809,8 @@ def c01(sc, V):
                 f.append({"sig": "numprocesses-negative", "step": s.n, "msg": "%s: %d" % (w["name"], n)})
             if cfg is not None and cfg.get("singleton") and n > 1:
                 f.append({"sig": "singleton-above-one", "step": s.n, "msg": "%s: %d" % (w["name"], n)})
-        calm_check = s.kind() == "check" and a.quiescent() and not a.stopping and not any(l[0] in ("conflict", "raised") for l in s.lines)
+        calm_check = s.kind() == "check" and a.quiescent() and not a.stopping and \
+            not any(l[0] in ("conflict", "raised") for l in s.lines) and not (s.n > 0 and V[s.n - 1].kind() == "fault")
         if calm_check:
             conv = True
             for w in a.watchers:
